@@ -38,14 +38,14 @@ ASSUMPTIONS = [
     "without stuffing the promise covers frames that contain no flag octet (with abort detection: that also do not end in 0x7D) and start more than 2047 + longest-clean-frame octets after the noise",
     "an exception escaping read()/is_valid makes the run void here (C14's violation)",
 ]
-MUST_FIRE = {"quick": ["hdlc_pending_escape_at_junction", "hdlc_in_frame_at_junction", "p1_collecting_at_junction", "p1_noise_over_8k"], "thorough": ["hdlc_pending_escape_at_junction", "hdlc_in_frame_at_junction", "p1_collecting_at_junction", "p1_noise_over_8k", "noise_overlong"]}
+MUST_FIRE = {"quick": ["hdlc_pending_escape_at_junction", "hdlc_in_frame_at_junction", "p1_collecting_at_junction", "p1_noise_over_8k", "noise_bogus_frame_to_max_aligned"], "thorough": ["hdlc_pending_escape_at_junction", "hdlc_in_frame_at_junction", "p1_collecting_at_junction", "p1_noise_over_8k", "noise_overlong"]}
 
 
 def gen(rng, tier, index):
     if rng.random() < 0.6:
         stuffing, abort = rng.choice(hdlc_gen.CONFIGS)
         data, kind = hdlc_gen.noise(rng, stuffing)
-        n = rng.choice([2, 2, 3, 5, 8, 40]) if stuffing else rng.choice([8, 20, 40])
+        n = rng.choice([2, 2, 3, 5, 8, 40]) if stuffing else rng.choice([8, 40, 80, 120])
         items = []
         for seq in range(n):
             it = hdlc_gen.clean_frame(rng, stuffing, abort, seq=seq, flag_free=not stuffing, small=n > 8 or not stuffing)
@@ -56,6 +56,20 @@ def gen(rng, tier, index):
             items.append({"t": "flags", "n": rng.choice([1, 1, 1, 2, 3])})
             items.append(it)
         items.append({"t": "flags", "n": rng.choice([1, 2])})
+        if not stuffing and rng.random() < 0.3:
+            # A bogus frame start whose length field (8) is already exceeded, so no flag can complete it: the
+            # reader must run into the maximum frame length. Half of the time the filler is sized so that
+            # octet 2048 of the bogus frame is a flag of the clean traffic (fault placed at the boundary).
+            clean_wire, _ = hdlc_gen.assemble(items, False)
+            hdr = bytes((0x7E, 0xA0, 0x08, 0x03, 0x21, 0x13)) + rng.randbytes(2).replace(b"\x7e", b"\x11") + b"\x01\x02"
+            flags = [i for i, b in enumerate(clean_wire) if b == FLAG and 1838 <= i <= 2038]
+            if flags and rng.random() < 0.5:
+                k = 2038 - rng.choice(flags)
+                kind = "bogus_frame_to_max_aligned"
+            else:
+                k = rng.randint(0, 300)
+                kind = "bogus_frame_to_max"
+            data = hdr + rng.randbytes(k).replace(b"\x7e", b"\x22")
         sc = {"reader": "hdlc", "cfg": [stuffing, abort], "noise": data.hex(), "noise_kind": kind, "clean": items}
     else:
         data, kind = p1_gen.noise(rng)
